@@ -123,6 +123,34 @@ def _mk_async(coord):
     return resolver
 
 
+def _mk_nested_sync(coord):
+    """a resolver whose (deferred) result is itself a deferred value: future -> future -> value"""
+
+    def resolver(parent, ctx, info, **args):
+        p = pstr(info.path)
+        ctx.ev("invoke", p)
+        rt = info.runtime
+        if isinstance(rt, ThreadPoolRuntime):
+            inner = lambda: _outcome(ctx, info, parent, args)  # noqa
+            inner.vlabel = "inner:" + p
+            return rt.submit(inner)
+        return _outcome(ctx, info, parent, args)
+
+    resolver.__name__ = "nested_" + coord.replace(".", "_")
+    return resolver
+
+
+def _mk_nested_async(coord):
+    async def resolver(parent, ctx, info, **args):
+        p = pstr(info.path)
+        ctx.ev("invoke", p)
+        await ctx.loop.defer("co:" + p, lambda: None)
+        return ctx.loop.defer("inner:" + p, lambda: _outcome(ctx, info, parent, args))
+
+    resolver.__name__ = "nested_async_" + coord.replace(".", "_")
+    return resolver
+
+
 _SCHEMAS = {}
 
 
@@ -134,7 +162,10 @@ def schema_for(custom, asyncio_styles):
         for coord in sorted(custom):
             style = custom[coord]
             t, f = coord.split(".")
-            fn = _mk_async(coord) if (style == "async" and asyncio_styles) else _mk_sync(coord)
+            if style == "nested":
+                fn = _mk_nested_async(coord) if asyncio_styles else _mk_nested_sync(coord)
+            else:
+                fn = _mk_async(coord) if (style == "async" and asyncio_styles) else _mk_sync(coord)
             s.register_resolver(t, f, fn)
         s.validate()
         _SCHEMAS[key] = s
